@@ -144,7 +144,7 @@ func init() {
 		}
 		return Slice{out}
 	})
-	reg("github.com/hdevalence/ed25519consensus.Verify", func(in *Interp, fn *ssa.Function, a []Value, pos token.Pos) Value {
+	verify := func(in *Interp, fn *ssa.Function, a []Value, pos token.Pos) Value {
 		pub, okp := bytesOf(a[0].(Slice).V)
 		sig := a[2].(Slice)
 		if len(sig.V) != 64 {
@@ -158,5 +158,8 @@ func init() {
 			return False
 		}
 		return in.deepEq(tag.Msg, a[1])
-	})
+	}
+	reg("github.com/hdevalence/ed25519consensus.Verify", verify)
+	// CometBFT's ed25519 public key (curve25519-voi verifier): same signature model
+	reg("(github.com/cometbft/cometbft/crypto/ed25519.PubKey).VerifySignature", verify)
 }
